@@ -31,6 +31,7 @@ Section ExprInd.
   Hypothesis Hfn : forall f args, Forall Pr args -> Pr (EFn f args).
   Hypothesis Hcast : forall a ty, Pr a -> Pr (ECast a ty).
   Hypothesis Hparen : forall a, Pr a -> Pr (EParen a).
+  Hypothesis Hpair : forall m f a b, Pr a -> Pr b -> Pr (EPairwise m f a b).
 
   Fixpoint expr_ind2 (e : expr) : Pr e :=
     match e with
@@ -60,6 +61,7 @@ Section ExprInd.
             end) args)
     | ECast a ty => Hcast a ty (expr_ind2 a)
     | EParen a => Hparen a (expr_ind2 a)
+    | EPairwise m f a b => Hpair m f a b (expr_ind2 a) (expr_ind2 b)
     end.
 End ExprInd.
 
@@ -73,6 +75,7 @@ Proof.
     cbn [fst snd] in *. rewrite Hc, Hv, IH. reflexivity.
   - (* fn *)
     f_equal. induction H as [|x t Hx Ht IH]; cbn [map]; [reflexivity|]. rewrite Hx, IH. reflexivity.
+  - (* pairwise *) now rewrite IHe1, IHe2.
 Qed.
 
 Lemma sem_strip P fenv env e : sem P fenv env (strip e) = sem P fenv env e.
@@ -126,6 +129,7 @@ Proof.
     intros E. apply andb_true_iff in E as [? ?]. f_equal; auto.
   - apply String.eqb_eq in H0. f_equal; auto.
   - f_equal; auto.
+  - apply Bool.eqb_prop in H. apply String.eqb_eq in H2. f_equal; auto.
 Qed.
 
 (* a discharged translator obligation means: the SQL the creator emits now has the generator's meaning *)
@@ -874,3 +878,197 @@ Proof.
   intros s t Hs Ht. unfold lev_agree_on in H. rewrite forallb_forall in H. specialize (H s Hs).
   rewrite forallb_forall in H. specialize (H t Ht). now apply Nat.eqb_eq.
 Qed.
+
+(* ------------------------------------------------------------------ pairwise array levels *)
+Lemma Qle_bool_trans a b c : Qle_bool a b = true -> Qle_bool b c = true -> Qle_bool a c = true.
+Proof. rewrite !Qle_bool_iff. apply Qle_trans. Qed.
+Lemma Qle_bool_total a b : Qle_bool a b = false -> Qle_bool b a = true.
+Proof. intros H. apply Qle_bool_false in H. apply Qle_bool_iff. now apply Qlt_le_weak. Qed.
+
+Lemma min_le_iff a q t : Qle_bool (if Qle_bool a q then a else q) t = (Qle_bool a t || Qle_bool q t)%bool.
+Proof.
+  destruct (Qle_bool a q) eqn:E.
+  - destruct (Qle_bool a t) eqn:E1; [reflexivity|]. destruct (Qle_bool q t) eqn:E2; [|reflexivity].
+    pose proof (Qle_bool_trans _ _ _ E E2). congruence.
+  - destruct (Qle_bool q t) eqn:E2; [now rewrite orb_true_r|]. rewrite orb_false_r.
+    destruct (Qle_bool a t) eqn:E1; [|reflexivity].
+    pose proof (Qle_bool_trans _ _ _ (Qle_bool_total _ _ E) E1). congruence.
+Qed.
+Lemma max_ge_iff a q t : Qle_bool t (if Qle_bool a q then q else a) = (Qle_bool t a || Qle_bool t q)%bool.
+Proof.
+  destruct (Qle_bool a q) eqn:E.
+  - destruct (Qle_bool t q) eqn:E2; [now rewrite orb_true_r|]. rewrite orb_false_r.
+    destruct (Qle_bool t a) eqn:E1; [|reflexivity].
+    pose proof (Qle_bool_trans _ _ _ E1 E). congruence.
+  - destruct (Qle_bool t a) eqn:E1; [reflexivity|]. destruct (Qle_bool t q) eqn:E2; [|reflexivity].
+    pose proof (Qle_bool_trans _ _ _ E2 (Qle_bool_total _ _ E)). congruence.
+Qed.
+
+Lemma fold_min_spec l : forall a, exists r,
+  fold_left (num_pick false) (map VNum l) (VNum a) = VNum r /\
+  forall t, Qle_bool r t = (Qle_bool a t || existsb (fun q => Qle_bool q t) l)%bool.
+Proof.
+  induction l as [|q l IH]; intros a; cbn [map fold_left existsb].
+  - exists a. split; [reflexivity|]. intros t. now rewrite orb_false_r.
+  - unfold num_pick at 2. cbn [to_xnum xle].
+    destruct (IH (if Qle_bool a q then a else q)) as (r & Hr & Hs).
+    exists r. split.
+    + destruct (Qle_bool a q); exact Hr.
+    + intros t. rewrite Hs, min_le_iff. now rewrite orb_assoc.
+Qed.
+Lemma fold_max_spec l : forall a, exists r,
+  fold_left (num_pick true) (map VNum l) (VNum a) = VNum r /\
+  forall t, Qle_bool t r = (Qle_bool t a || existsb (fun q => Qle_bool t q) l)%bool.
+Proof.
+  induction l as [|q l IH]; intros a; cbn [map fold_left existsb].
+  - exists a. split; [reflexivity|]. intros t. now rewrite orb_false_r.
+  - unfold num_pick at 2. cbn [to_xnum xle].
+    destruct (IH (if Qle_bool a q then q else a)) as (r & Hr & Hs).
+    exists r. split.
+    + destruct (Qle_bool a q); exact Hr.
+    + intros t. rewrite Hs, max_ge_iff. now rewrite orb_assoc.
+Qed.
+
+Section Pairwise.
+  Variable P : profile.
+  Variable fenv : string -> list val -> val.
+  Variable env : bool -> string -> val.
+  Notation ev := (eval P fenv env).
+  Notation sm := (sem P fenv env).
+
+  (* metric values of all pairs of the cross product *)
+  Definition pair_values (m : string -> string -> Q) (la lb : list string) : list Q :=
+    map (fun xy => m (fst xy) (snd xy)) (cross la lb).
+
+  Lemma eval_pairwise mx f cl cr la lb m :
+    ev cl = VArr la -> ev cr = VArr lb -> (forall x y, fenv f [VStr x; VStr y] = VNum (m x y)) ->
+    ev (EPairwise mx f cl cr) = agg_vals mx (map VNum (pair_values m la lb)).
+  Proof.
+    intros Ha Hb Hm. cbn [eval]. rewrite Ha, Hb. unfold pair_values. rewrite map_map. f_equal.
+    apply map_ext. intros [x y]. apply Hm.
+  Qed.
+
+  Lemma sem_pairwise f higher cl cr t la lb m tq :
+    ev cl = VArr la -> ev cr = VArr lb -> (forall x y, fenv f [VStr x; VStr y] = VNum (m x y)) ->
+    numQ t = Some tq -> pair_values m la lb <> [] ->
+    sm (gen_pairwise f higher cl cr t) =
+    of_bool (existsb (fun q => if higher then Qle_bool tq q else Qle_bool q tq) (pair_values m la lb)).
+  Proof.
+    intros Ha Hb Hm Ht Hne. unfold gen_pairwise. rewrite sem_cmp.
+    rewrite (eval_pairwise higher f cl cr la lb m Ha Hb Hm). cbn [eval].
+    destruct (pair_values m la lb) as [|q0 qs]; [congruence|]. cbn [map agg_vals to_xnum existsb].
+    destruct higher.
+    - destruct (fold_max_spec qs q0) as (r & Hr & Hs). rewrite Hr.
+      erewrite cmp3_thresh by (reflexivity || eauto). cbn [sat]. now rewrite Hs.
+    - destruct (fold_min_spec qs q0) as (r & Hr & Hs). rewrite Hr.
+      erewrite cmp3_thresh by (reflexivity || eauto). cbn [sat]. now rewrite Hs.
+  Qed.
+
+  Lemma sem_pairwise_empty f higher cl cr t la lb :
+    ev cl = VArr la -> ev cr = VArr lb -> cross la lb = [] ->
+    sm (gen_pairwise f higher cl cr t) = U.
+  Proof.
+    intros Ha Hb He. unfold gen_pairwise. rewrite sem_cmp. cbn [eval]. rewrite Ha, Hb, He. cbn [map agg_vals].
+    apply cmp3_null_l.
+  Qed.
+End Pairwise.
+
+(* ------------------------------------------------------------------ km level: monotonicity *)
+Definition clipQ (q : Q) : Q := if Qle_bool q 1 then (if Qle_bool (-1) q then q else -1) else 1.
+
+Lemma clipQ_mono a b : (a <= b)%Q -> (clipQ a <= clipQ b)%Q.
+Proof.
+  intros H. unfold clipQ.
+  destruct (Qle_bool a 1) eqn:A1, (Qle_bool b 1) eqn:B1, (Qle_bool (-1) a) eqn:A2, (Qle_bool (-1) b) eqn:B2;
+    rewrite ?Qle_bool_iff in *; rewrite ?Qle_bool_false in *; try assumption; try apply Qle_refl; try discriminate;
+    try (exfalso; eapply Qlt_not_le; [eassumption|]; eauto using Qle_trans, Qlt_le_weak; fail).
+  all: try (eapply Qle_trans; eauto using Qlt_le_weak; fail).
+  all: try (exfalso; eapply (Qlt_irrefl 1); eapply Qlt_le_trans; [eassumption|]; eapply Qle_trans; eassumption).
+  all: try (exfalso; eapply (Qlt_irrefl (-1)); eapply Qle_lt_trans; [|eassumption]; eapply Qle_trans; eassumption).
+Qed.
+Lemma clipQ_range q : (-1 <= clipQ q <= 1)%Q.
+Proof.
+  unfold clipQ. destruct (Qle_bool q 1) eqn:A; [destruct (Qle_bool (-1) q) eqn:B|];
+    rewrite ?Qle_bool_iff in *; split; auto; try discriminate; apply Qle_refl.
+Qed.
+
+Section KmMono.
+  Variable P : profile.
+  Variable fenv : string -> list val -> val.
+  Variable acosf : Q -> Q.
+  Variable fty : string.
+  (* laws of the abstract leaves *)
+  Hypothesis acos_numeric : forall v q, numQ v = Some q -> fenv "acos"%string [v] = VNum (acosf q).
+  Hypothesis acos_antitone : forall x y, (-1 <= x)%Q -> (x <= y)%Q -> (y <= 1)%Q -> (acosf y <= acosf x)%Q.
+  Hypothesis cast_float_id : forall x, fenv ("cast:" ++ fty)%string [VNum x] = VNum x.
+
+  Lemma km_clip_value env p q :
+    numQ (eval P fenv env p) = Some q -> exists v, numQ (eval P fenv env (km_clipped p)) = Some v /\ (v == clipQ q)%Q.
+  Proof.
+    intros Hq. unfold km_clipped. rewrite eval_case_pick. cbn [map fst snd pick].
+    rewrite !sem_cmp. cbn [eval]. erewrite !cmp3_thresh by (reflexivity || eauto). cbn [sat]. unfold clipQ.
+    change (inject_Z 1) with 1%Q. change (inject_Z (-1)) with (-1)%Q.
+    destruct (Qle_bool q 1) eqn:E1; cbn [negb of_bool isT nth_error].
+    - destruct (Qle_bool (-1) q) eqn:E2; cbn [negb of_bool isT nth_error pick snd eval].
+      + exists q. split; [exact Hq|reflexivity].
+      + exists (inject_Z (-1)). split; reflexivity.
+    - cbn [snd eval]. exists (inject_Z 1). split; reflexivity.
+  Qed.
+
+  Lemma sem_km_acos env latl latr lngl lngr t v tq :
+    numQ (eval P fenv env (km_clipped (km_partial latl latr lngl lngr))) = Some v -> numQ t = Some tq ->
+    sem P fenv env (gen_km fty false latl latr lngl lngr t) = doc_le (acosf v * 6371) tq.
+  Proof. intros Hv Ht. apply sem_km; auto. Qed.
+
+  (* a looser threshold accepts whatever a stricter one accepts *)
+  Lemma km_monotone_threshold env latl latr lngl lngr t1 t2 q q1 q2 :
+    numQ (eval P fenv env (km_partial latl latr lngl lngr)) = Some q ->
+    numQ t1 = Some q1 -> numQ t2 = Some q2 -> (q1 <= q2)%Q ->
+    sem P fenv env (gen_km fty false latl latr lngl lngr t1) = T ->
+    sem P fenv env (gen_km fty false latl latr lngl lngr t2) = T.
+  Proof.
+    intros Hq H1 H2 Hle. destruct (km_clip_value env _ q Hq) as (v & Hv & _).
+    rewrite (sem_km_acos env latl latr lngl lngr t1 v q1 Hv H1), (sem_km_acos env latl latr lngl lngr t2 v q2 Hv H2).
+    unfold doc_le. destruct (Qle_bool (acosf v * 6371) q1) eqn:E; [|discriminate]. intros _.
+    apply Qle_bool_iff in E. assert (E2 : Qle_bool (acosf v * 6371) q2 = true).
+    { apply Qle_bool_iff. eapply Qle_trans; eauto. }
+    now rewrite E2.
+  Qed.
+
+  (* a pair that is angularly closer (larger haversine sum) is accepted whenever a farther pair is:
+     the distance acos(clip(.)) * 6371 is antitone in the sum *)
+  Lemma km_monotone_distance env1 env2 latl latr lngl lngr t tq qa qb :
+    numQ (eval P fenv env1 (km_partial latl latr lngl lngr)) = Some qa ->
+    numQ (eval P fenv env2 (km_partial latl latr lngl lngr)) = Some qb ->
+    (qa <= qb)%Q -> numQ t = Some tq ->
+    sem P fenv env1 (gen_km fty false latl latr lngl lngr t) = T ->
+    sem P fenv env2 (gen_km fty false latl latr lngl lngr t) = T.
+  Proof.
+    intros Ha Hb Hle Ht.
+    destruct (km_clip_value env1 _ qa Ha) as (va & Hva & Eva).
+    destruct (km_clip_value env2 _ qb Hb) as (vb & Hvb & Evb).
+    rewrite (sem_km_acos env1 latl latr lngl lngr t va tq Hva Ht), (sem_km_acos env2 latl latr lngl lngr t vb tq Hvb Ht).
+    unfold doc_le. destruct (Qle_bool (acosf va * 6371) tq) eqn:E; [|discriminate]. intros _.
+    apply Qle_bool_iff in E.
+    assert (Hab : (va <= vb)%Q) by (rewrite Eva, Evb; now apply clipQ_mono).
+    assert (Ra : (-1 <= va)%Q) by (rewrite Eva; apply clipQ_range).
+    assert (Rb : (vb <= 1)%Q) by (rewrite Evb; apply clipQ_range).
+    pose proof (acos_antitone va vb Ra Hab Rb) as Hd.
+    assert (E2 : Qle_bool (acosf vb * 6371) tq = true).
+    { apply Qle_bool_iff. eapply Qle_trans; [|exact E]. apply Qmult_le_compat_r; [exact Hd|discriminate]. }
+    now rewrite E2.
+  Qed.
+End KmMono.
+
+Section Std2.
+  Variable P : profile.
+  Variable env : bool -> string -> val.
+  Local Open Scope string_scope.
+  Lemma sem_dl_std cl cr t a b tq :
+    eval P (std_fenv []) env cl = VStr a -> eval P (std_fenv []) env cr = VStr b -> numQ t = Some tq ->
+    sem P (std_fenv []) env (gen_fn_thresh "damerau_levenshtein" false cl cr t) = doc_le (inject_Z (Z.of_nat (dam_lev a b))) tq.
+  Proof.
+    intros Ha Hb Ht. eapply (sem_fn_thresh P (std_fenv []) env "damerau_levenshtein" false); [|exact Ht].
+    rewrite Ha, Hb. reflexivity.
+  Qed.
+End Std2.
